@@ -7,7 +7,7 @@
 (* paths; good, stale and bogus self references.                              *)
 EXTENDS Rounds, Json, TLC
 
-CONSTANTS NC, Driven, Targets, AliasTargets, MaxNum, MaxOps, Known
+CONSTANTS NC, Driven, Targets, AliasTargets, MaxNum, MaxOps
 
 Chains == 1..NC
 
@@ -60,18 +60,15 @@ Next == /\ n < MaxOps
 Spec == Init /\ [][Next]_vars
 View == G
 
-KnownState(H, c) == "C20-1" \in Known /\ KnownFinding_C20_1(H, c)
-
 \* every head references a known final round of another chain; durable and in-memory links agree
 Inv == \A c \in Chains :
-          /\ KnownFinalOther(G, c, G.ext[c]) \/ KnownState(G, c)
-          /\ \/ G.dl[c] = G.ml[c]
-             \/ "C20-1" \in Known /\ \A x \in Chains : G.dl[c][x] >= G.ml[c][x]   \* aftermath of C20-1
+          /\ KnownFinalOther(G, c, G.ext[c])
+          /\ G.dl[c] = G.ml[c]
 
-StepProp == [][ \/ StepOK20(G, last'.o, last'.res, TRUE, G')
-                \/ (last'.res = "ok" /\ KnownState(G', last'.o.c)
-                     /\ G'.num[last'.o.c] \in {G.num[last'.o.c], G.num[last'.o.c] + 1}
-                     /\ LinksForward(G, G', last'.o.c)) ]_vars
+StepProp == [][StepOK20(G, last'.o, last'.res, TRUE, G')]_vars
+
+\* no operation aborts (the durable / in-memory link mismatch abort is unreachable)
+NoAbort == [][last'.res # "panic"]_vars
 
 \* non-vacuity witnesses (action properties that must be violated)
 ReachBackLink == [][~(last'.o.op = "Start" /\ last'.res = "err" /\ last'.o.self = "good" /\ G.has[last'.o.c]
